@@ -18,6 +18,7 @@
    arguments have their Go types (uint32 / int32 / int64) and durations <= bnd. *)
 From Verif Require Import C06.Model C06.Eqb C06.Spec C06.Proofs C06.ProofsCreate.
 From Verif Require Import C07.Model C07.Spec C07.ProofsMarshal C07.ProofsWf C07.ProofsHeap C07.ProofsSlice C07.Proofs.
+From Verif Require Import C07.Persist C07.PersistSpec C07.ProofsPersist.
 From VerifGen Require Import Consts.
 From Coq Require Import Lia.
 Open Scope N_scope.
@@ -224,6 +225,106 @@ Theorem unvalidated_envelopes_crash :
 Proof. exact apply_raw_crashes. Qed.
 Print Assumptions unvalidated_envelopes_crash.
 
+(* ---------- snapshot persistence under write faults ---------- *)
+
+(* Persist.v: raft's FileSnapshotSink as a state machine with planted faults (per Write call:
+   ok / k bytes taken then error; finalisation in Close ok / error; the first of Close and
+   Cancel decides), storeFSMSnapshot.Persist statement by statement ([persist_to], [m] = the
+   result of Data.MarshalBinary, None = error) and the three statements of raft's takeSnapshot
+   around it ([take_snapshot]).  [s] is ANY open sink (any bytes already in it, any faults
+   planted): FileSnapshotStore.Create returns [fresh_sink wfl cf]. *)
+
+(* for EVERY marshal result and EVERY fault oracle: if the sink ends up committed then Persist
+   returned nil and the sink holds exactly the marshalled image *)
+Theorem persist_commits_only_complete_images :
+  forall m s s' tr err, is_open s = true -> persist_to m s = (s', tr, err) -> committed s' = true ->
+    err = false /\ exists p, m = Some p /\ sk_buf s' = sk_buf s ++ p.
+Proof. exact ProofsPersist.persist_commits_only_complete_images. Qed.
+Print Assumptions persist_commits_only_complete_images.
+
+(* if Persist returns an error the sink is not committed *)
+Theorem failed_persist_leaves_no_snapshot :
+  forall m s s' tr, is_open s = true -> persist_to m s = (s', tr, true) -> committed s' = false.
+Proof. exact ProofsPersist.failed_persist_leaves_no_snapshot. Qed.
+Print Assumptions failed_persist_leaves_no_snapshot.
+
+(* with no fault planted the sink is committed with the full image, by one Write and one Close *)
+Theorem persist_completes :
+  forall p s s' tr err, is_open s = true -> no_faults s = true -> persist_to (Some p) s = (s', tr, err) ->
+    err = false /\ committed s' = true /\ sk_buf s' = sk_buf s ++ p /\
+    tr = [KWrite (blen p) (blen p) false; KClose false].
+Proof. exact ProofsPersist.persist_completes. Qed.
+Print Assumptions persist_completes.
+
+(* the same for the whole attempt (Persist, then raft's Cancel on error / Close): what a
+   restart finds is nothing new or the complete image; raft reports failure exactly when
+   nothing was committed; an error of Persist fails the attempt *)
+Theorem snapshot_commits_only_complete_images :
+  forall m s s' tr err, is_open s = true -> take_snapshot m s = (s', tr, err) -> committed s' = true ->
+    err = false /\ snd (persist_to m s) = false /\ exists p, m = Some p /\ sk_buf s' = sk_buf s ++ p.
+Proof. exact ProofsPersist.snapshot_commits_only_complete_images. Qed.
+Print Assumptions snapshot_commits_only_complete_images.
+
+Theorem failed_snapshot_leaves_no_snapshot :
+  forall m s s' tr, is_open s = true -> take_snapshot m s = (s', tr, true) -> committed s' = false.
+Proof. exact ProofsPersist.failed_snapshot_leaves_no_snapshot. Qed.
+Print Assumptions failed_snapshot_leaves_no_snapshot.
+
+Theorem persist_error_fails_snapshot :
+  forall m s, is_open s = true -> snd (persist_to m s) = true ->
+    snd (take_snapshot m s) = true /\ committed (fst (fst (take_snapshot m s))) = false.
+Proof. exact ProofsPersist.persist_error_fails_snapshot. Qed.
+Print Assumptions persist_error_fails_snapshot.
+
+(* liveness of the attempt: whatever was planted, if no call at the sink actually failed and
+   MarshalBinary gave an image, the snapshot is committed *)
+Theorem unfaulted_snapshot_commits :
+  forall p s s' tr err, is_open s = true -> take_snapshot (Some p) s = (s', tr, err) -> trace_faulted tr = false ->
+    err = false /\ committed s' = true.
+Proof. exact ProofsPersist.unfaulted_snapshot_commits. Qed.
+Print Assumptions unfaulted_snapshot_commits.
+
+(* with marshal_roundtrip: restoring ANY committed snapshot yields the snapshotted value, for
+   every metadata value satisfying wf, every marshal / write / close fault *)
+Theorem committed_snapshot_restores :
+  forall (pm : pdata -> list N) (pu : list N -> option pdata), (forall p, pu (pm p) = Some p) ->
+  forall bnd dat d mfail wfl cf s' tr err,
+    stamps_ok dat -> wf bnd d = true ->
+    take_snapshot (marshal_binary pm mfail dat d) (fresh_sink wfl cf) = (s', tr, err) ->
+    committed s' = true ->
+    restore (list N) pu (sk_buf s') = Some d.
+Proof. intros pm pu Hrt. exact (ProofsPersist.committed_snapshot_restores pm pu Hrt). Qed.
+Print Assumptions committed_snapshot_restores.
+
+(* ... in particular for the metadata any command log leads to *)
+Theorem reachable_snapshot_restores :
+  forall (pm : pdata -> list N) (pu : list N -> option pdata), (forall p, pu (pm p) = Some p) ->
+  forall bnd auto orc log dat mfail wfl cf s' tr err,
+    bnd_ok bnd -> log_ok bnd log -> stamps_ok dat ->
+    take_snapshot (marshal_binary pm mfail dat (run auto orc log)) (fresh_sink wfl cf) = (s', tr, err) ->
+    committed s' = true ->
+    restore (list N) pu (sk_buf s') = Some (run auto orc log).
+Proof. intros pm pu Hrt. exact (ProofsPersist.reachable_snapshot_restores pm pu Hrt). Qed.
+Print Assumptions reachable_snapshot_restores.
+
+(* the link for the persistfault cases: the model's observation passes PersistSpec.persist_spec
+   for every value, every fault oracle, with or without a prior snapshot in the store *)
+Theorem model_satisfies_persist_spec :
+  forall (pm : pdata -> list N) (pu : list N -> option pdata), (forall p, pu (pm p) = Some p) ->
+  forall bnd dat d mfail wfl cf prior,
+    stamps_ok dat -> wf bnd d = true ->
+    persist_spec (model_pfobs pm pu dat d mfail wfl cf prior) = true.
+Proof. intros pm pu Hrt. exact (ProofsPersist.model_satisfies_persist_spec pm pu Hrt). Qed.
+Print Assumptions model_satisfies_persist_spec.
+
+(* seeded mutant C07-7 ("defer sink.Close()" in Persist): the write fails after 2 of 4 bytes,
+   Persist reports the error, and the truncated image is committed *)
+Theorem deferred_close_commits_truncated_image_refuted :
+  let r := persist_deferred_close (Some [1; 2; 3; 4]) (fresh_sink [Some 2] false) in
+  snd r = true /\ committed (fst r) = true /\ sk_buf (fst r) = [1; 2].
+Proof. exact ProofsPersist.deferred_close_commits_truncated_image_refuted. Qed.
+Print Assumptions deferred_close_commits_truncated_image_refuted.
+
 (* ---------- the link: the model passes the executable spec on every input ---------- *)
 
 Theorem model_satisfies_spec :
@@ -372,3 +473,37 @@ Example ex_validate :
   apply_raw_env c07_apply_ext (Env true 3 (fun f => if f =? 103 then XOk else XAbsent)) = Dispatch 3 /\
   apply_raw_env c07_apply_ext (Env true 2 (fun f => XAbsent)) = Ignored 2.
 Proof. vm_compute. repeat split; reflexivity. Qed.
+
+(* snapshot attempts: every ending is possible.  Disk full after 2 of 4 bytes / after all
+   bytes; finalisation fails; marshal fails; no fault.  The hypotheses of
+   committed_snapshot_restores hold for the metadata of ex_log with a fault-free sink and an
+   identity wire format, and the conclusion is the non-trivial value *)
+Example ex_snapshot_attempts :
+  take_snapshot (Some [1; 2; 3; 4]) (fresh_sink [Some 2] false) =
+    (Sk [1; 2] SCancelled [] false, [KWrite 4 2 true; KCancel; KCancel], true) /\
+  take_snapshot (Some [1; 2; 3; 4]) (fresh_sink [Some 9] false) =
+    (Sk [1; 2; 3; 4] SCancelled [] false, [KWrite 4 4 true; KCancel; KCancel], true) /\
+  take_snapshot (Some [1; 2; 3; 4]) (fresh_sink [] true) =
+    (Sk [1; 2; 3; 4] SFailed [] true, [KWrite 4 4 false; KClose true; KCancel; KCancel], true) /\
+  take_snapshot None (fresh_sink [] false) = (Sk [] SCancelled [] false, [KCancel; KCancel], true) /\
+  take_snapshot (Some [1; 2; 3; 4]) (fresh_sink [None] false) =
+    (Sk [1; 2; 3; 4] SCommitted [] false, [KWrite 4 4 false; KClose false; KClose false], false).
+Proof. repeat split; reflexivity. Qed.
+
+(* (the wire format is the standing hypothesis of this file; for any such format:) *)
+Example ex_committed_snapshot :
+  forall (pm : pdata -> list N) (pu : list N -> option pdata), (forall p, pu (pm p) = Some p) ->
+  let d := run true (fun _ => []) ex_log in
+  exists s' tr,
+    take_snapshot (marshal_binary pm false (fun _ => 77%Z) d) (fresh_sink [None] false) = (s', tr, false) /\
+    committed s' = true /\ wf 604800000000000 d = true /\ d <> init_data /\
+    restore (list N) pu (sk_buf s') = Some d.
+Proof.
+  intros pm pu Hrt d.
+  destruct (take_snapshot (marshal_binary pm false (fun _ => 77%Z) d) (fresh_sink [None] false)) as [[s' tr] err] eqn:E.
+  assert (W : wf 604800000000000 d = true) by (vm_compute; reflexivity).
+  destruct (ProofsPersist.snapshot_completes (persist (list N) pm (fun _ => 77%Z) d) (fresh_sink [None] false) s' tr err eq_refl eq_refl E) as (A & B & _).
+  subst err. exists s', tr. split; [reflexivity|]. split; [exact B|]. split; [exact W|]. split; [vm_compute; discriminate|].
+  apply (ProofsPersist.committed_snapshot_restores pm pu Hrt 604800000000000 (fun _ => 77%Z) d false [None] false s' tr false); auto.
+  intros id. vm_compute. discriminate.
+Qed.
